@@ -29,7 +29,7 @@ ASSUMPTIONS = [
     "tuples, sets, non-string keys are outside the JSON serializer's domain; int-keyed dicts outside jsonpickle's",
     "structural equality: exact types, NaN == NaN, -0.0 != 0.0, exceptions by type and args",
 ]
-REQUIRED_HOOKS = ["ser_roundtrips", "store_roundtrips", "ident_spellings", "argsid_pairs", "e2e_calls", "mutation_probes"]
+REQUIRED_HOOKS = ["ser_roundtrips", "store_roundtrips", "ident_spellings", "argsid_pairs", "e2e_calls", "mutation_probes", "resend_after_mutation", "ident_sibling_functions"]
 SERIALIZERS = {"json": "JsonSerializer", "jsonpickle": "JsonPickleSerializer", "pickle": "PickleSerializer"}
 
 
@@ -212,6 +212,35 @@ def run_store(case, V, hooks, distinct):
                             except Exception as e:
                                 V.append({"sig": f"store:reference-after-foreign-purge:unresolvable:{'same' if store is cds else 'fresh'}-instance",
                                           "what": f"a reference handed out by serialize() after another instance purged the store does not resolve on the {who}: {type(e).__name__}: {e}"[:300], "witness": wit})
+                # the client sends an object, changes it in place and sends it again: the second reference stands for the second content
+                if isinstance(original, (list, dict)):
+                    hooks["resend_after_mutation"] += 1
+                    rv = [copy.deepcopy(original), "resend-probe", rng.random()]
+                    rv_first = copy.deepcopy(rv)
+                    r1 = cds.serialize(rv)
+                    rv.append("GROWN-" * rng.randrange(1, 4))
+                    rv_second = copy.deepcopy(rv)
+                    r2 = cds.serialize(rv)
+                    if cds.is_reference(r1) and cds.is_reference(r2):
+                        if r1 == r2:
+                            V.append({"sig": "store:resend-after-mutation:same-reference", "what": "an object serialized, grown in place and serialized again got the reference of its old content", "witness": wit})
+                        if cds.serialize(copy.deepcopy(rv_second)) != r2 and ser.serialize(copy.deepcopy(rv_second)) == ser.serialize(rv_second):
+                            V.append({"sig": "store:equal-content-different-reference", "what": "after a re-send of a mutated object an equal fresh copy gets another reference", "witness": wit})
+                        readers = [("serializing instance", cds)]
+                        if backend == "sqlite":
+                            readers.append(("fresh instance", make_app(backend, td.db(), **conf).client_data_store))
+                        for who, store in readers:
+                            for rr, want, which in ((r2, rv_second, "second"), (r1, rv_first, "first")):
+                                if store is cds and which == "first":
+                                    continue   # same-process aliasing of the first reference is the listed LRU finding, probed below
+                                try:
+                                    got = store.resolve(rr)
+                                except Exception as e:
+                                    V.append({"sig": "store:resend-after-mutation:unresolvable", "what": f"{who}, {which} reference: {type(e).__name__}: {e}"[:200], "witness": wit})
+                                    continue
+                                if not same(want, got):
+                                    V.append({"sig": f"store:resend-after-mutation:{which}-reference-other-content",
+                                              "what": f"{who}: the {which} reference resolves to {repr(got)[-80:]}, sent was {repr(want)[-80:]}", "witness": wit})
                 # aliasing probes on a value of their own (serialized exactly once, as a client would)
                 if isinstance(original, (list, dict)):
                     hooks["mutation_probes"] += 1
@@ -326,6 +355,37 @@ def run_ident(case, V, hooks, distinct):
                               "witness": {"spelling": name, "serialized": {k: v[:60] for k, v in inv.call.serialized_arguments.items()}}})
                 if inv.arguments.kwargs != {"a": 1, "b": "x", "c": None}:
                     V.append({"sig": f"ident:arguments-not-bound:{name}", "what": f"{name}: the invocation's arguments are {inv.arguments.kwargs!r}, the body receives a=1 b='x' c=None", "witness": {"spelling": name}})
+        # --- functions made by one factory share a code object and differ in their defaults (and a function's defaults may be
+        #     re-assigned): "defaults omitted" means THIS function's current defaults, whichever sibling was called first
+        fam = [("sig_scaled_cm", 2, "cm"), ("sig_scaled_in", 3, "in"), ("sig_scaled_pt", 72, "pt")]
+        rng.shuffle(fam)
+        for fname, fdef, udef in fam:
+            t_f = app.task(getattr(basic, fname))
+            canon_f = Call(t_f, t_f.args(5, fdef, unit=udef)).call_id
+            spf = {
+                "sibling-defaults-omitted": lambda: [t_f(5)],
+                "sibling-keyword": lambda: [t_f(a=5)],
+                "sibling-parallelize-tuple": lambda: list(t_f.parallelize([(5,), (5, fdef)])),
+                "sibling-parallelize-common-args": lambda: list(t_f.parallelize([{"a": 5}], common_args={"unit": udef})),
+            }
+            for name, fn in spf.items():
+                hooks["ident_spellings"] += 1
+                hooks["ident_sibling_functions"] += 1
+                distinct.append(["ident", dom, backend, "sibling", name])
+                try:
+                    invs = fn()
+                except Exception as e:
+                    V.append({"sig": f"ident:raised:{name}", "what": f"{fname} {name}: {type(e).__name__}: {e}"[:200], "witness": {}})
+                    continue
+                for inv in invs:
+                    if inv.call.call_id != canon_f:
+                        V.append({"sig": f"ident:spelling-changes-identity:{name}",
+                                  "what": f"{fname} {name}: identity differs from the same call with this function's defaults written out (bound {inv.arguments.kwargs!r})"[:300],
+                                  "witness": {"function": fname, "order_called": [f[0] for f in fam]}})
+                    if inv.arguments.kwargs != {"a": 5, "factor": fdef, "unit": udef}:
+                        V.append({"sig": f"ident:arguments-not-bound:{name}",
+                                  "what": f"{fname} {name}: bound arguments {inv.arguments.kwargs!r}; the function's own defaults are factor={fdef!r} unit={udef!r}"[:300],
+                                  "witness": {"function": fname, "order_called": [f[0] for f in fam]}})
         n1, n2 = t_none(), list(t_none.parallelize([(), ()]))
         if any(i.call.call_id != n1.call.call_id for i in n2):
             V.append({"sig": "ident:spelling-changes-identity:noargs-parallelize", "what": "a task without parameters: direct call and parallelize differ", "witness": {}})
